@@ -12,7 +12,8 @@ TECHNIQUE = ("causal-order monitor over one process-global trace of the real ser
              "per-connection server construction hook, scripted lifespan and request applications, clients hammering "
              "connect() during start-up; per-connection state-copy check")
 LEVEL_TEXT = ("Enumerates lifespan scripts (complete, complete slowly, failed, failed then keeps running, raise before/after "
-              "receive, hang, unknown message) at start-up and (complete, raise, hang) at shutdown x client activity (none, "
+              "receive, hang, unknown message) at start-up and (complete, slow, failed, failed-and-lingers, raise, hang, unknown message, "
+              "return early) at shutdown x client activity (none, "
               "connect attempts throughout, in-flight request at the trigger) x both workers on real loopback sockets.")
 LEVEL_NOTE = ("Trusted: Python-level socket._accept shadow sees every accept of both runtimes; verdicts are on event order, wall "
               "clock only bounds waiting (exceeded => inconclusive).")
@@ -48,6 +49,10 @@ def _shutdown_scripts():
         "shutdown_raise": LS_OK[:4] + [["raise", "Exception"]],
         "shutdown_hang": LS_OK[:4] + [["sleep", 30.0]],
         "shutdown_slow": LS_OK[:4] + [["sleep", 0.2], ["send", {"type": "lifespan.shutdown.complete"}]],
+        "shutdown_failed": LS_OK[:4] + [["try_send", {"type": "lifespan.shutdown.failed", "message": "cleanup failed"}]],
+        "shutdown_failed_then_lingers": LS_OK[:4] + [["try_send", {"type": "lifespan.shutdown.failed"}], ["sleep", 0.3]],
+        "shutdown_unknown": LS_OK[:4] + [["try_send", {"type": "lifespan.bogus"}]],
+        "shutdown_return_early": LS_OK[:4],
     }
 
 
